@@ -258,6 +258,14 @@ impl<'a> SRun<'a> {
                 self.emit(Req::Reorder(keys))?;
             }
         }
+        if kind == Kind::Lru {
+            // let the mock clock move between segments (a pseudo-random fifth of the steps): the library reads it outside
+            // its critical sections (`on_unlock`, the cut-off of the expiry scan)
+            let x = self.case_steps.wrapping_mul(2654435761).wrapping_add(t as u64 * 40503);
+            if (x >> 7) % 5 == 0 {
+                self.emit(Req::Adv(1 + (x >> 11) % 9))?;
+            }
+        }
         self.emit(Req::Step(t))?;
         Ok(())
     }
